@@ -145,6 +145,9 @@ def int_valued(e):
     numeral), returns that Int term, else None."""
     if z3.is_app_of(e, z3.Z3_OP_TO_REAL):
         return e.arg(0)
+    if z3.is_app_of(e, z3.Z3_OP_ITE):
+        a, b = int_valued(e.arg(1)), int_valued(e.arg(2))
+        return z3.If(e.arg(0), a, b) if a is not None and b is not None else None
     if z3.is_app_of(e, z3.Z3_OP_UMINUS):
         t = int_valued(e.arg(0))
         return None if t is None else -t
